@@ -519,7 +519,7 @@ class C14(Check):
             else:
                 rc.aff = [diag[a][k] if k == q else 0.0 for a in range(L) for q in range(K) for k in range(K)]
             runs["n%d" % k] = rc
-        io2, _ = self.correspond("run", [rc.line(c) for c, rc in runs.items()])
+        io2, _ = self.correspond("run", [rc.line(c) for c, rc in runs.items()], drift=True)
         for cid, rc in runs.items():
             o = io2.get(cid)
             if not o or o.get("err") != ["0"]:
